@@ -247,7 +247,39 @@ func (ts *TermStore) Bin(op string, a, b *Term) *Term {
 			return ts.BV(r, w)
 		}
 	}
+	// a table (ite-tree of constants) combined with a constant stays a table: push the
+	// operation into the leaves (lengths/offsets of choice strings: len(s)-1)
+	if (op == "bvadd" || op == "bvsub") && b.IsConst() && isConstTable(a, 16) {
+		return ts.mapTable(a, func(l *Term) *Term { return ts.Bin(op, l, b) })
+	}
+	if op == "bvadd" && a.IsConst() && isConstTable(b, 16) {
+		return ts.mapTable(b, func(l *Term) *Term { return ts.Bin(op, a, l) })
+	}
 	return ts.intern(&Term{op: op, args: []*Term{a, b}, w: w})
+}
+
+// isConstTable: an ite-tree whose leaves are constants, with at most max leaves.
+func isConstTable(t *Term, max int) bool {
+	n := 0
+	var walk func(t *Term) bool
+	walk = func(t *Term) bool {
+		switch t.op {
+		case "const":
+			n++
+			return n <= max
+		case "ite":
+			return walk(t.args[1]) && walk(t.args[2])
+		}
+		return false
+	}
+	return t.op == "ite" && walk(t)
+}
+
+func (ts *TermStore) mapTable(t *Term, f func(*Term) *Term) *Term {
+	if t.op == "ite" {
+		return ts.Ite(t.args[0], ts.mapTable(t.args[1], f), ts.mapTable(t.args[2], f))
+	}
+	return f(t)
 }
 func (ts *TermStore) Neg(a *Term) *Term {
 	if a.IsConst() {
